@@ -10,9 +10,17 @@ Fixpoint prefixb (p s : string) : bool :=
   | _, _ => false
   end.
 
+Fixpoint containsb (p s : string) : bool :=
+  prefixb p s || match s with EmptyString => false | String _ s' => containsb p s' end.
+
+(* functions that cannot influence any of the properties: the `Display` text of the error enums and the
+   test-only constant RNG of utils.rs; a change there is not an obligation of any property *)
+Definition irrelevant (name : string) : bool :=
+  containsb "_Display__fmt" name || containsb "ConstRng_" name.
+
 (* the entries whose name starts with one of the given file prefixes (names are <file>__<impl>__<fn>) *)
 Definition fps_of (files : list string) (l : list (string * Z)) : list (string * Z) :=
-  filter (fun e => existsb (fun f => prefixb (f ++ "__") (fst e)) files) l.
+  filter (fun e => existsb (fun f => prefixb (f ++ "__") (fst e)) files && negb (irrelevant (fst e))) l.
 
 Fixpoint fp_eqb (a b : list (string * Z)) : bool :=
   match a, b with
